@@ -523,9 +523,12 @@ func (x *Exec) dynamicCall(st *State, c *ssa.Call, fv SV, args []SV) SV {
 	}
 	// impure callback: arbitrary result; it does not write library-owned memory (standing assumption)
 	if tt, ok := rt.(*types.Tuple); ok && tt.Len() == 0 {
+		x.callGhostUpdates(st, sig, fv, fid, args, SV{K: KTuple})
 		return SV{K: KTuple}
 	}
-	return x.freshOf(st, rt, "cb")
+	ires := x.freshOf(st, rt, "cb")
+	x.callGhostUpdates(st, sig, fv, fid, args, ires)
+	return ires
 }
 
 // callGhostUpdates: ghost updates attached to calls through a function value of this signature.
